@@ -16,7 +16,8 @@ EXTENDS Naturals, Integers, Sequences, FiniteSets, TLC, SequencesExt, FiniteSets
 CONSTANTS W,         \* MAX_REORG_HISTORY_SIZE      (10)
           NonceWin,  \* MAX_FUTURE_TRANSACTION_NONCES (10)
           AgeWin,    \* MAX_FUTURE_TRANSACTION_BLOCKS (10)
-          MAXV       \* image of 2^256-1 under the amount embedding
+          MAXV,      \* image of 2^256-1 under the amount embedding
+          PragueFrom \* first height at which the Prague rules (current-txid helper) are in force on this network
 
 VARIABLES
   chain,    \* Seq of finalised blocks; chain[h+1] is height h: [hash, ts, txs]
@@ -43,7 +44,7 @@ Hashes  == {chain[i].hash : i \in 1..Len(chain)}
 
 NoCur == [n |-> 0, hash |-> NULL, ts |-> 0, txs |-> <<>>]
 
-EmptyWorld == [nonce |-> <<>>, code |-> <<>>, cells |-> <<>>, bal |-> <<>>, tok |-> <<>>]
+EmptyWorld == [nonce |-> <<>>, code |-> <<>>, cells |-> <<>>, bal |-> <<>>, tok |-> <<>>, pcells |-> <<>>]
 
 Nonce(w, a)  == Get(w.nonce, a, 0)
 Code(w, a)   == Get(w.code, a, "none")
@@ -261,11 +262,39 @@ TxRec(id, tx, insc, nonce, out) ==
 ChainIds == UNION {{chain[i].txs[j].id : j \in 1..Len(chain[i].txs)} : i \in 1..Len(chain)}
 CurIds   == {cur.txs[j].id : j \in 1..Len(cur.txs)}
 
+(* C19: what the Probe contract records of its execution context (slots 1..17, as the harness abstracts them) *)
+BlockHashBack(k) == IF k <= NextH /\ k <= 256 /\ k >= 1 THEN "h:" \o chain[NextH - k + 1].hash ELSE "h:zero"
+PDefault(s) == IF s \in {3, 10, 11, 12, 13, 14} THEN "h:zero" ELSE IF s \in {7, 8, 9} THEN "a:zero" ELSE IF s = 17 THEN "x:zero" ELSE "n:0"
+PCell(w, a, s) == Get(w.pcells, <<a, s>>, PDefault(s))
+ProbeWrite(w, tx, hash, ts) ==
+  LET a == tx.to
+      prague == NextH >= PragueFrom
+      vals == [s \in 1..17 |->
+                 CASE s = 1 -> "n:" \o ToString(NextH)
+                   [] s = 2 -> "n:" \o ToString(ts)
+                   [] s = 3 -> "h:" \o hash
+                   [] s = 4 -> "n:own"
+                   [] s \in {5, 6} -> "n:0"
+                   [] s = 7 -> "a:zero"
+                   [] s \in {8, 9} -> "a:" \o tx.from
+                   [] s = 10 -> BlockHashBack(1)
+                   [] s = 11 -> BlockHashBack(2)
+                   [] s = 12 -> BlockHashBack(3)
+                   [] s = 13 -> BlockHashBack(256)
+                   [] s = 14 -> BlockHashBack(257)
+                   [] s = 15 -> "n:2"
+                   [] s = 16 -> IF prague THEN "n:33" ELSE "n:1"
+                   [] s = 17 -> IF prague THEN "x:" \o tx.txid ELSE "x:zero"]
+  IN  [w EXCEPT !.pcells = [k \in (DOMAIN @) \cup {<<a, s>> : s \in 1..17} |->
+                               IF k[1] = a /\ k[2] \in 1..17 THEN vals[k[2]] ELSE @[k]]]
+
 (* append one executed transaction to the block under construction *)
 Append1(c, w, id, tx, insc, hash, ts, out) ==
   [c |-> [n |-> c.n + 1, hash |-> Resolve(hash, NextH), ts |-> ts,
           txs |-> Append(c.txs, TxRec(id, tx, insc, Nonce(w, tx.from), out))],
-   w |-> out.world]
+   w |-> IF tx.kind = "call" /\ tx.gas = "ample" /\ Code(w, tx.to) = "probe" /\ out.status = 1
+         THEN ProbeWrite(out.world, tx, Resolve(hash, NextH), ts)
+         ELSE out.world]
 
 (* brc20_deploy / brc20_call / brc20_deposit / brc20_withdraw, accepted *)
 AddTx(id, tx, insc, idx, hash, ts, seen) ==
@@ -371,7 +400,7 @@ MineOk(k, ts) ==
      IN  chain' = r.ch /\ snaps' = r.sn /\ pool' = r.p /\ maxEver' = r.mx
   /\ UNCHANGED <<cur, world, dur>>
 
-CtrlTx == [kind |-> "create", from |-> "idx", to |-> NULL, ckind |-> "ctrl", ops |-> <<>>, lc |-> [fn |-> "none"], gas |-> "ample"]
+CtrlTx == [kind |-> "create", from |-> "idx", to |-> NULL, ckind |-> "ctrl", ops |-> <<>>, lc |-> [fn |-> "none"], gas |-> "ample", txid |-> "zero"]
 
 (* brc20_initialise at the next height: the controller deployment and its block *)
 InitialiseOk(id, hash, ts, height, logs) ==
